@@ -19,8 +19,28 @@ import types
 
 from .. import tlc, util
 
-CH = {1: "b", 2: "B", 3: "%", 4: "_", 5: "é", 6: "+", 7: "Pyro.NameServer"}
+# Concretisation of the abstract name alphabet (1/2: a case pair, 3/4: pattern wildcards, 5: non-ASCII, 6: a metacharacter,
+# 7: the reserved name).  The model treats every character as a literal, so the expected results are the same under every
+# table; the tables differ in which pattern language (SQL LIKE, GLOB, regex, quoting) their characters are special in.
+TABLES = [
+    {1: "b", 2: "B", 3: "%", 4: "_", 5: "é", 6: "+"},
+    {1: "k", 2: "K", 3: "*", 4: "?", 5: "ß", 6: "["},
+    {1: "z", 2: "Z", 3: "[", 4: "]", 5: "中", 6: "("},      # (none of the characters of the reserved name is used)
+    {1: "q", 2: "Q", 3: "'", 4: "\\", 5: "ö", 6: "$"},
+    {1: "i", 2: "I", 3: '"', 4: "^", 5: "İ", 6: "|"},
+]
+CH = dict(TABLES[0])
+CH[7] = "Pyro.NameServer"
 INV = {v: k for k, v in CH.items()}
+
+
+def use_table(k):
+    """switch the concretisation (between histories only)"""
+    CH.clear()
+    CH.update(TABLES[k % len(TABLES)])
+    CH[7] = "Pyro.NameServer"
+    INV.clear()
+    INV.update({v: kk for kk, v in CH.items()})
 URI = {0: "PYRO:Pyro.NameServer@localhost:9090", 1: "PYRO:obj1@host1:1111", 2: "PYRO:obj2@host2:2222"}
 URI_INV = {v: k for k, v in URI.items()}
 TAG = {1: "x", 2: "X"}
@@ -334,13 +354,29 @@ def run(ctx):
             pair = Pair(nameserver, dbdir, "a%d" % si)
             pre = [pair.step(o, errors) for o in setup]
             snap = pair.snapshot()
-            for o in singles:
+            for oi, o in enumerate(singles):
                 pair.restore(snap)
                 traces.append(pre + [pair.step(o, errors)])
-                metas.append({"part": "single", "setup": si, "op": o})
+                metas.append({"part": "single", "setup": si, "op": o, "table": 0})
                 ctx.count(("single", si, json.dumps(o, sort_keys=True)))
+        # (a') the same operations with the other character tables (quick: one other table per operation, by rotation)
+        for tk in range(1, len(TABLES)):
+            use_table(tk)
+            for si, setup in enumerate(SETUPS):
+                pair = Pair(nameserver, dbdir, "t%d_%d" % (tk, si))
+                pre = [pair.step(o, errors) for o in setup]
+                snap = pair.snapshot()
+                for oi, o in enumerate(singles):
+                    if ctx.quick and (oi + si) % (len(TABLES) - 1) + 1 != tk:
+                        continue
+                    pair.restore(snap)
+                    traces.append(pre + [pair.step(o, errors)])
+                    metas.append({"part": "single", "setup": si, "op": o, "table": tk})
+                    ctx.count(("single", si, tk, json.dumps(o, sort_keys=True)))
+        use_table(0)
         # (b) random histories with a reopen in the middle and at the end
         for wi, h in enumerate(walks):
+            use_table(wi)
             pair = Pair(nameserver, dbdir, "b")
             tr = []
             for i, o in enumerate(h):
@@ -349,8 +385,9 @@ def run(ctx):
                     tr.append(pair.reopen())
             tr.append(pair.reopen())
             traces.append(tr)
-            metas.append({"part": "random", "history": h})
+            metas.append({"part": "random", "history": h, "table": wi % len(TABLES)})
             ctx.count(("random", json.dumps(h, sort_keys=True)))
+        use_table(0)
         # (c) failure points: every statement index of every mutating operation on a rich state
         mutating = [
             {"op": "register", "name": [2, 2], "uri": 1, "safe": False, "tags": [1, 2], "meta": False},
@@ -390,7 +427,7 @@ def run(ctx):
             # find the offending operation: first event whose clause fired is not available from TLC; use the last op of
             # single/failpoint traces, the whole history class otherwise
             if meta["part"] in ("single", "failpoint"):
-                sig = "%s [%s]" % (v, op_class(meta["op"]))
+                sig = "%s [%s%s]" % (v, op_class(meta["op"]), " chars=" + "".join(TABLES[meta["table"]][c] for c in (3, 4, 6)) if meta.get("table") else "")
             else:
                 sig = "%s [random history]" % v
             ctx.violation(sig, {"meta": meta, "trace_tail": tr[-3:]})
@@ -406,6 +443,7 @@ def replay(ctx, path):
     try:
         for case in rep["cases"]:
             meta = case["meta"]
+            use_table(meta.get("table", 0))
             pair = Pair(nameserver, dbdir, "r")
             if meta["part"] == "random":
                 tr = [pair.step(o, errors) for o in meta["history"]] + [pair.reopen()]
